@@ -28,7 +28,7 @@ RULE = (
     "boundary, or the loop links a current; distinct = canonical hash"
 )
 ASSUMPTIONS = [
-    "flux: |flux| <= (1e-6, plus 0.05*h/size with h = 2e-3 L when the surface cuts the magnet boundary) * int|B|dA + 10 * (difference of the two quadrature settings); inconclusive when the two settings differ by more than 2e-2 of int|B|dA",
+    "flux: |flux| <= (1e-6, plus 0.25*h/size with h = 2e-3 L when the surface cuts the magnet boundary) * int|B|dA + 10 * (difference of the two quadrature settings); inconclusive when the two settings differ by more than 2e-2 of int|B|dA",
     "circulation: |circ - I*Lk| <= 1e-6 * int|H|dl + 100 * (two-setting difference; inconclusive above 3e-6); Lk from the Gauss double integral (inconclusive unless within 0.02 of an integer)",
     "inside/outside along a loop and the distance to the surface come from the harness geometry (vf/geom.py)",
 ]
@@ -373,8 +373,8 @@ def run_case(case, ctx):
             else:
                 ctx.sample(case)
             # surfaces that cut the boundary carry the jump of the tangential B across the cut curve: resolved by brute-force
-            # refinement down to h = 2e-3 L, which leaves an error the two settings share; explicit allowance 0.05 * h / size
-            cut_allow = 0.05 * (2e-3 * body.L / case["size"]) if cuts else 0.0
+            # refinement down to h = 2e-3 L, which leaves an error the two settings share; explicit allowance 0.25 * h / size
+            cut_allow = 0.25 * (2e-3 * body.L / case["size"]) if cuts else 0.0  # (largest residual seen on the unchanged tree in 2e4 surfaces: 0.09 * h / size)
             if abs(fb) > (1e-6 + cut_allow) * ab + 10 * diff:
                 out.append(Violation({"sub": "flux_not_zero", "cls": cls, "cuts_boundary": cuts, "shape": case["shape"],
                                       "magnitude": "O(1)" if abs(fb) > 0.05 * ab else "small"},
